@@ -25,6 +25,10 @@ pub enum Policy {
     Split4G,
     /// compact + LIFO free lists: a later tree occupies the addresses of an earlier, freed one
     Reuse,
+    /// compact + first fit over coalesced free extents: freed memory is handed out again in
+    /// pieces of other sizes, so a later tree's blocks start at other offsets inside the
+    /// memory of an earlier one (node ids recur with another meaning)
+    Coalesce,
 }
 
 impl Policy {
@@ -35,6 +39,7 @@ impl Policy {
             Policy::Scatter => "scatter",
             Policy::Split4G => "split-4G",
             Policy::Reuse => "reuse",
+            Policy::Coalesce => "coalesce",
         }
     }
     pub fn parse(s: &str) -> Option<Policy> {
@@ -44,15 +49,17 @@ impl Policy {
             "scatter" => Policy::Scatter,
             "split-4G" => Policy::Split4G,
             "reuse" => Policy::Reuse,
+            "coalesce" => Policy::Coalesce,
             _ => return None,
         })
     }
-    pub const ALL: [Policy; 5] = [
+    pub const ALL: [Policy; 6] = [
         Policy::Compact,
         Policy::Descending,
         Policy::Scatter,
         Policy::Split4G,
         Policy::Reuse,
+        Policy::Coalesce,
     ];
 }
 
@@ -81,6 +88,8 @@ struct State {
     // split-4G pairing
     pair_pending: Option<usize>, // size of the even block placed in A at off_a
     free_lists: BTreeMap<usize, Vec<usize>>,
+    /// Coalesce: free extents (address, length), sorted by address, adjacent ones merged
+    extents: Vec<(usize, usize)>,
     overflow: bool,
 }
 
@@ -131,6 +140,7 @@ pub fn install() {
         off_scatter: [0; SCATTER_N],
         pair_pending: None,
         free_lists: BTreeMap::new(),
+        extents: Vec::new(),
         overflow: false,
     });
     drop(g);
@@ -179,6 +189,7 @@ pub fn begin_run(policy: Policy, seed: u64) -> i64 {
         s.off_down = ARENA;
         s.off_scatter = [0; SCATTER_N];
         s.free_lists.clear();
+        s.extents.clear();
     }
     s.live = 0;
     s.pair_pending = None;
@@ -208,6 +219,20 @@ fn place(s: &mut State, size: usize) -> usize {
                 if let Some(a) = list.pop() {
                     return a;
                 }
+            }
+            let a = BASE_A + s.off_a;
+            s.off_a += need;
+            a
+        }
+        Policy::Coalesce => {
+            if let Some(pos) = s.extents.iter().position(|(_, len)| *len >= need) {
+                let (a, len) = s.extents[pos];
+                if len == need {
+                    s.extents.remove(pos);
+                } else {
+                    s.extents[pos] = (a + need, len - need);
+                }
+                return a;
             }
             let a = BASE_A + s.off_a;
             s.off_a += need;
@@ -317,6 +342,20 @@ unsafe extern "C" fn sim_free(p: *mut c_void) {
     if s.policy == Policy::Reuse {
         // the block's capacity is what was originally carved out; shrinking reallocs keep it
         s.free_lists.entry(round(size + HDR)).or_default().push(base);
+    }
+    if s.policy == Policy::Coalesce {
+        let len = round(size + HDR);
+        let pos = s.extents.partition_point(|(a, _)| *a < base);
+        s.extents.insert(pos, (base, len));
+        // merge with the next and the previous extent
+        if pos + 1 < s.extents.len() && s.extents[pos].0 + s.extents[pos].1 == s.extents[pos + 1].0 {
+            s.extents[pos].1 += s.extents[pos + 1].1;
+            s.extents.remove(pos + 1);
+        }
+        if pos > 0 && s.extents[pos - 1].0 + s.extents[pos - 1].1 == s.extents[pos].0 {
+            s.extents[pos - 1].1 += s.extents[pos].1;
+            s.extents.remove(pos);
+        }
     }
 }
 
